@@ -565,7 +565,7 @@ def as_computed(ctx, kind, fn):
     from .. import e6
     c = ctx.crate
     live = [p for p in e6.Exec(c, fn).run_fn() if p.exit is None or p.exit[0] == "return"]
-    tam = sorted({nm for p in live for nm in e6.list_tampering(p.val if p.exit is None else p.exit[1])})
+    tam = sorted({nm for p in live for nm in list(e6.list_tampering(p.val if p.exit is None else p.exit[1])) + list(e6.inplace_changes(p.val if p.exit is None else p.exit[1]))})
     ctx.check("R06.2", kind + ":returned-as-computed", bool(live) and not tam, "result-rearranged-by:" + ",".join(tam), c.loc(fn),
               "%d paths: gradient[i] belongs to prediction[i]" % len(live),
               "%s::loss applies %s to its result before returning it: gradient entry i no longer belongs to output i" % (kind, tam))
